@@ -11,6 +11,7 @@ import warnings
 import torch
 
 from . import common
+from .util_batch import same_values
 from .util_batch import ALGEBRA, DIM, DT, GROUPS, LTYPES, MANIFOLD, ltype_name, ltype_of, numel, pp
 
 
@@ -21,7 +22,7 @@ def C():
 
 def _eq(a, b):
     a, b = C()._plain(a), C()._plain(b)
-    return a.shape == b.shape and a.dtype == b.dtype and bool(torch.equal(torch.nan_to_num(a), torch.nan_to_num(b)))
+    return a.shape == b.shape and a.dtype == b.dtype and bool(same_values(a, b))
 
 
 def _note(ctx, stream, *sig):
@@ -65,7 +66,7 @@ def stream_argcombo(ctx):
                         ctx.fail(case, f"mutation: {lt}.add(alpha={alpha}) changed an argument")
                     # batched = item by item, with the keyword
                     if alpha in (2, -0.5):
-                        for k in range(n):
+                        for k in range(0, n, 2 if ctx.quick else 1):
                             s1 = c06._lie(CX[k].clone(), lt).add(CA[k].clone(), alpha=alpha)
                             if not c06._close(want.tensor()[k], s1.tensor(), dtype):
                                 ctx.fail(case | {"item": k}, f"itemwise: {lt}.add(alpha={alpha}) on a mixed batch: item {k} differs from the call on that item alone")
@@ -84,7 +85,7 @@ def stream_argcombo(ctx):
                             ctx.fail(case, f"argcombo: {lt}.euler(2e-4) differs from euler() with the documented default")
                         if not (_eq(r1, r2) and _eq(r1, r3)):
                             ctx.fail(case, f"argcombo: {lt}.euler: positional eps, keyword eps and pp.euler(eps=) disagree (eps={eps})")
-                        for k in range(CX.shape[0]):
+                        for k in range(0, CX.shape[0], 1 if (not ctx.quick or eps == 1e-2) else 3):      # quick: all items for one non-default eps, every third otherwise
                             s1 = c06._lie(CX[k].clone(), lt).euler(eps=eps)
                             if not c06._close(r1[k], s1, dtype):
                                 ctx.fail(case | {"item": k}, f"itemwise: {lt}.euler(eps={eps}) on a mixed batch: item {k} (`{names[k]}`) is {r1[k].tolist()} "
@@ -95,7 +96,7 @@ def stream_argcombo(ctx):
                 if lt in GROUPS:
                     q = CX.clone()
                     sl = c06.QUAT[lt]
-                    scale = torch.tensor([1.0, 1e-3, 7.0, 1e-8, 0.25] * 10, dtype=DT[dtype])[:q.shape[0]]
+                    scale = torch.tensor([1.0, 1e-3, 7.0, 1e-8, 0.25] * (q.shape[0] // 5 + 1), dtype=DT[dtype])[:q.shape[0]]
                     q[:, sl] = q[:, sl] * scale[:, None]          # non-unit quaternions of very different norms in one batch
                     Xq = c06._lie(q, lt)
                     for eps in (1e-12, 1e-9, 1e-10):
@@ -189,7 +190,7 @@ def stream_argcombo(ctx):
                                            f"{type(e).__name__}: {str(e)[:80]}")
                             continue
                         ga, wa = c06._flatten_result(got), c06._flatten_result(want)
-                        if len(ga) != len(wa) or any(a.shape != b.shape or not bool(((c06._plain(a) - b).abs() <= 1e-9 * (1 + b.abs().max())).all())
+                        if len(ga) != len(wa) or any(a.shape != b.shape or not bool(torch.isfinite(c06._plain(a)).all()) or not bool(((c06._plain(a) - b).abs() <= 1e-9 * (1 + b.abs().max())).all())
                                                      for a, b in zip(ga, wa)):
                             ctx.fail(case, f"argcombo: pp.func.jacrev(argnums={argnums}, has_aux={has_aux}, chunk_size={chunk}) on the {lt} action differs "
                                            f"from torch.func.jacrev on the plain tensors")
@@ -256,7 +257,7 @@ def stream_errors(ctx):
                     if not raised:
                         X = c06._lie(base.clone(), lt)          # legal for this type after all: start again from a fresh object
                         continue
-                    if not torch.equal(torch.nan_to_num(X.tensor()), torch.nan_to_num(x_before)):
+                    if not same_values(X.tensor(), x_before):
                         ctx.fail(case, f"atomic: `{label}` on {lt} raised but left `X` changed ({dtype}) — a failing call must not modify its object")
                         X = c06._lie(base.clone(), lt)
                     for t, t0 in zip((base, abase, bad_a, narrow), snap):
@@ -356,7 +357,7 @@ def stream_gradmode(ctx):
                             continue
                         same_type = type(r) is type(ref) and getattr(r, "ltype", None) is getattr(ref, "ltype", None)
                         rv, fv = c06._plain(r).detach(), c06._plain(ref).detach()
-                        if not same_type or rv.shape != fv.shape or not torch.equal(torch.nan_to_num(rv), torch.nan_to_num(fv)):
+                        if not same_type or rv.shape != fv.shape or not same_values(rv, fv):
                             ctx.fail(case, f"gradmode: {lt}.{op} with operands `{label}` returns {type(r).__name__}/{ltype_name(getattr(r, 'ltype', None))} "
                                            f"{'with other values' if same_type else ''} than with plain operands ({dtype})")
 
@@ -668,10 +669,10 @@ def stream_ownership(ctx):
                         if not torch.equal(X.tensor(), xb):
                             ctx.fail(case, f"ownership: writing into the result of {lt}.{op} changed the argument")
                             X = c06._lie(xb.clone(), lt)
-                        if rp.reshape(-1).shape[0] > 1 and not torch.equal(torch.nan_to_num(rp.reshape(-1)[1:]), torch.nan_to_num(before.reshape(-1)[1:])):
+                        if rp.reshape(-1).shape[0] > 1 and not same_values(rp.reshape(-1)[1:], before.reshape(-1)[1:]):
                             ctx.fail(case, f"ownership: writing one element of the result of {lt}.{op} changed other elements")
                         again = c06._plain(fn(X)).detach()
-                        if not torch.equal(torch.nan_to_num(again), torch.nan_to_num(before)):
+                        if not same_values(again, before):
                             ctx.fail(case, f"ownership: after writing into a previous result, {lt}.{op} returns other values (result aliases internal state)")
                     except Exception as e:
                         ctx.fail(case, f"raises: ownership probe of {lt}.{op} raises {type(e).__name__}: {str(e)[:80]}")
@@ -729,7 +730,7 @@ def stream_interleave(ctx):
                     results[k] = (on, v)
                 else:
                     o0, v0 = results[k]
-                    if v[:2] != v0[:2] or v[2].shape != v0[2].shape or v[2].dtype != v0[2].dtype or not torch.equal(torch.nan_to_num(v[2]), torch.nan_to_num(v0[2])):
+                    if v[:2] != v0[:2] or v[2].shape != v0[2].shape or v[2].dtype != v0[2].dtype or not same_values(v[2], v0[2]):
                         ctx.fail(case, f"interleave: {key[0]}.{key[3]} ({key[1]}, lshape {key[2]}) returns another result in call order `{on}` than in order `{o0}` "
                                        f"(state shared between types / dtypes / objects)")
         ctx.note_case(("interleave", len(calls), len(orders)), True)
